@@ -135,7 +135,8 @@ def gen_column(r, card, zero_rate=0.0, onehot_rate=0.0, tiny_rate=0.0):
         return [1.0 if i == k else 0.0 for i in range(card)]
     if r.random() < tiny_rate:
         # several magnitudes; column sums to one exactly enough (|err| < 1e-15)
-        small = [10.0 ** (-r.randint(6, 12)) * r.randint(1, 9) for _ in range(card - 1)]
+        # mantissas with and without a fractional part (3e-10, 2.5e-10): number formats treat them differently
+        small = [float("%se-%d" % (r.choice([r.randint(1, 9), r.randint(11, 99) / 10.0]), r.randint(6, 12))) for _ in range(card - 1)]
         rest = 1.0 - math.fsum(small)
         col = small + [rest]
         r.shuffle(col)
